@@ -439,4 +439,35 @@ theorem simplifyCore_spec_gen (me : Event)
                   subst this
                   exact ⟨[], hpv⟩
 
+/-! ### `mapM` in `Option`, self-intervention by name -/
+
+theorem optMapM_total {α β : Type} (f : α → Option β) (l : List α) (h : ∀ x ∈ l, ∃ y, f x = some y) :
+    ∃ r, l.mapM f = some r ∧ ∀ y, y ∈ r ↔ ∃ x ∈ l, f x = some y := by
+  induction l with
+  | nil => exact ⟨[], rfl, by simp⟩
+  | cons a l ih =>
+    obtain ⟨r, hr, hmem⟩ := ih (fun x hx => h x (by simp [hx]))
+    obtain ⟨b, hb⟩ := h a (by simp)
+    refine ⟨b :: r, by simp [List.mapM_cons, hb, hr], fun y => ?_⟩
+    simp only [List.mem_cons, hmem, exists_eq_or_imp, hb, Option.some.injEq]
+    constructor
+    · rintro (rfl | h') <;> [exact Or.inl rfl; exact Or.inr h']
+    · rintro (h' | h') <;> [exact Or.inl h'.symm; exact Or.inr h']
+
+theorem optMapM_none {α β : Type} (f : α → Option β) (l : List α) (h : ∃ x ∈ l, f x = none) :
+    l.mapM f = none := by
+  induction l with
+  | nil => obtain ⟨x, hx, _⟩ := h; cases hx
+  | cons a l ih =>
+    obtain ⟨x, hx, hfx⟩ := h
+    cases ha : f a with
+    | none => simp [List.mapM_cons, ha]
+    | some b =>
+      rcases List.mem_cons.1 hx with rfl | hx'
+      · rw [ha] at hfx; cases hfx
+      · simp [List.mapM_cons, ha, ih ⟨x, hx', hfx⟩]
+
+theorem selfIntervened_iff (v : Var) : selfIntervened v = true ↔ v.name ∈ subNames v := by
+  simp only [selfIntervened, List.any_eq_true, beq_iff_eq, subNames, List.mem_map]
+
 end Y0.Ctf
